@@ -7,6 +7,7 @@ import (
 	"sync"
 	"time"
 
+	"github.com/StephenButtolph/canoto"
 	"github.com/ava-labs/avalanchego/utils/logging"
 	"github.com/ava-labs/avalanchego/utils/timer"
 	"go.uber.org/zap"
@@ -85,6 +86,13 @@ func (m *MessageBuffer) clearPending() {
 	m.pending = [][]byte{}
 }
 
+// batchEntrySize returns the number of bytes [msg] occupies in the encoding
+// produced by CreateBatchMessage (field tag + length prefix + payload), such
+// that len(CreateBatchMessage(msgs)) is the sum of batchEntrySize over [msgs].
+func batchEntrySize(msg []byte) int {
+	return len(canoto__BatchMessage__Messages__tag) + int(canoto.SizeBytes(msg))
+}
+
 func (m *MessageBuffer) Send(msg []byte) error {
 	m.l.Lock()
 	defer m.l.Unlock()
@@ -93,7 +101,9 @@ func (m *MessageBuffer) Send(msg []byte) error {
 		return ErrClosed
 	}
 
-	l := len(msg)
+	// [maxSize] bounds the encoded batch, so account for the framing of [msg]
+	// inside the batch and not only for its payload.
+	l := batchEntrySize(msg)
 	if l > m.maxSize {
 		return ErrMessageTooLarge
 	}
